@@ -20,7 +20,7 @@ def gen_case(rng):
     # utf-8-sig (what `-e` auto-detection reports for a list saved as "UTF-8 with BOM"): the trainer's side of such a ruleset is judged here; the other tools
     # cannot load it (recorded assumption), so the encoding appears in C06 only
     case = trained.gen_train_case(rng, encodings=['utf-8', 'utf-8', 'utf-8', 'latin-1', 'cp1251', 'cp1252', 'ascii', 'iso-8859-7', 'utf-8-sig', 'cp1254', 'cp1254'],
-                                  coverages=(0, 0.1, 0.5, 0.6, 0.999, 1, 1.0, 0.3), max_len_choices=(21, 21, 9))
+                                  coverages=(0, 0.1, 0.5, 0.6, 0.999, 1, 1.0, 0.3, 0.9999999999, 1 - 2.0 ** -40, 1e-12), max_len_choices=(21, 21, 9))
     cls = rng.random()
     if cls < 0.15:      # all counts tie
         case['items'] = [[p, 1] for p, _ in case['items']]
